@@ -12,6 +12,8 @@ try:
 except Exception:
     pass
 checks, na = [], []
+# properties whose check has been reviewed, validated on the unchanged tree and mutation-tested
+CLAIMED = set(json.load(open(os.path.join(ROOT, "tools", "claimed.json"))))
 for p in props:
     pid = p["id"]
     sp = os.path.join(H, pid.lower(), "spec.json")
@@ -20,6 +22,9 @@ for p in props:
         continue
     spec = json.load(open(sp))
     m = spec.get("manifest", {})
+    if pid not in CLAIMED:
+        na.append({"property_id": pid, "reason": "check under construction (package exists but is not yet reviewed and validated on the unchanged tree); design in DESIGN.md section 4"})
+        continue
     if m.get("not_applicable"):
         na.append({"property_id": pid, "reason": m["not_applicable"]})
         continue
